@@ -19,6 +19,7 @@ import (
 	"strconv"
 	"strings"
 	"time"
+	"verif/sim/core"
 
 	"verif/sim/driver"
 	"verif/sim/ev"
@@ -43,13 +44,20 @@ func NewEnv() *Env {
 	if err != nil {
 		ev.Infra("scratch: %v", err)
 	}
+	privateCache = core.PrivateGoCache(root)
 	return &Env{Root: root, Codrv: filepath.Join(ev.Root(), "bin", "codrv"), Repo: repo, SimDir: filepath.Join(ev.Root(), "sim")}
 }
+
+// privateCache: the Go build cache of this worker process (see core.PrivateGoCache).
+var privateCache string
 
 func (e *Env) Close() { os.RemoveAll(e.Root) }
 
 func goEnv() []string {
 	env := os.Environ()
+	if privateCache != "" {
+		env = append(env, "GOCACHE="+privateCache)
+	}
 	return append(env, "GOFLAGS=-mod=mod", "GOPROXY=off", "GOSUMDB=off", "GOTOOLCHAIN=local")
 }
 
